@@ -9,6 +9,7 @@ CONSTANTS
   Sampler = FALSE
   Monitor = TRUE
   Hist = FALSE
+  GenMinM = 0
 INVARIANTS NoViolation C08_Safe C10_Cap C15_Quiescent C15_NoWrap C11_Panics C09_Safe
 PROPERTIES C08_Live C09_Live
 CHECK_DEADLOCK FALSE
